@@ -722,7 +722,7 @@ func c15Input(dir string, scn *c15Scn, st c15Site) any {
 		for _, f := range files {
 			fs = append(fs, []any{f, tplEntries(parseFile(scn, f))})
 		}
-		return J{"root": tplEntries(primary), "files": fs}
+		return J{"root": tplEntries(primary), "rootName": c15Root, "files": fs}
 	case "txfiles":
 		keysOf := func(rel string) []string {
 			ks := []string{}
